@@ -204,6 +204,12 @@ def busHangSigs (w : World) (m : Mon) (b : BId) : List String :=
   (if m.dropped.any (fun d => d.1 == b) then ["stop-drop"] else []) ++
   (if (w.bus b).rl == .exited && !(w.bus b).queue.isEmpty then ["stopped-backlog"] else [])
 
+/-- the executor at the root of the chain of inline activations an executor belongs to (a run loop, or ordinary code) -/
+def rootExec (w : World) : Nat → Proc → Proc
+  | 0, p => p
+  | fuel + 1, .inst i => rootExec w fuel (w.inst i).exec
+  | _, p => p
+
 /-- par-drain: the two instances run inside two different sibling handlers of one event on a parallel bus,
     both of which drain the queues inline -/
 def parDrainSig (w : World) (i1 i2 : IId) : Bool :=
@@ -348,7 +354,11 @@ def Mon.step (m : Mon) (w : World) (l : Label) (w' : World) : Mon × List Vio :=
                  parDrainSig w' i1 j) then ["par-drain"] else [])
           s!"instance {j} starts on a serial bus while a handler of another event of that bus is executing" else []
     let vs16 := if m.stopped.contains (w'.inst j).bus then
-        v "C16" "startAfterStop" (match (w'.inst j).exec with | .inst _ => ["stop-drain"] | _ => [])
+        -- (stop-drain: the start is the work of a handler of another bus - or of code whose own executor chain leads to one -
+        --  that drains the stopped bus's queue; a handler started by what the stopped bus itself was running is not)
+        v "C16" "startAfterStop" (match (w'.inst j).exec with
+                                  | .inst i => if rootExec w' 8 (.inst i) != .rl (w'.inst j).bus then ["stop-drain"] else []
+                                  | _ => [])
           s!"instance {j} of bus {(w'.inst j).bus} starts after stop() of that bus returned" else []
     (m, vs5 ++ vs6 ++ vs2 ++ vs16)
   | .hEnd i out =>
@@ -509,8 +519,26 @@ def Mon.step (m : Mon) (w : World) (l : Label) (w' : World) : Mon × List Vio :=
            (w'.bus b).handlers.any (fun r => match r.kind with | .expect x' _ => x' == x | _ => false) then
           v "C18" "registryNotRestored" [] s!"bus {b}: after expect() of task {x} its temporary handler is still registered or other handlers changed" else []))
     | _ => (m, [])
-  | .walWrite _ b e ok =>
-    (m, if ok && (w'.bus b).walLines.getLast? != some e then v "C17" "walLine" [] s!"bus {b} event {e}" else [])
+  -- a handler that was selected for the activation is passed over only when its result has been made terminal meanwhile by a
+  -- recorded mechanism (the guard of hSkip demands it, so this fires on a history followed after the correspondence has broken)
+  | .hSkip _ b e k =>
+    (m,
+     if (match (w.ev e).getRes? b k with | some r => r.terminal | none => false) then [] else
+       v "C01" "passedOver" [] s!"bus {b} event {e}: selected handler {k} is passed over although nothing had ended its result" ++
+       (match (w.bus b).handlers.find? (fun r => r.hid == k) with
+        | some r => (match r.kind with
+          | .expect x _ =>
+            v "C18" "subscriberPassedOver" []
+              s!"bus {b} event {e}: the temporary handler of the pending expect() of task {x} is passed over, the call never sees the event"
+          | _ => [])
+        | none => []))
+  | .walWrite p b e ok =>
+    (m, (if ok && (w'.bus b).walLines.getLast? != some e then v "C17" "walLine" [] s!"bus {b} event {e}" else []) ++
+        -- the line is written after the event's handlers on that bus have finished (the guard of walWrite demands it, so this
+        -- fires on a history followed after the correspondence has broken)
+        (match (insts w).find? (fun i => (w.inst i).bus == b && (w.inst i).ev == e && (w.inst i).exec == p && (w.inst i).st != .finished) with
+         | some i => v "C17" "lineBeforeHandlersFinished" [] s!"bus {b} event {e}: the WAL line is written while handler instance {i} of the event on that bus has not finished"
+         | none => []))
   -- the client registers / removes a handler while an expect() call is pending on that bus: the registry that call has to
   -- leave behind changes accordingly
   | .on b key k kind =>
